@@ -45,6 +45,15 @@ Effective(rpc) ==
   IN  m \cup s
 Required(rpc) == {h \in Effective(rpc) : h.required}
 
+\* What the OpenAPI document publishes for the operation: one header parameter per effective
+\* declaration ("" = no declared type is published as a string).
+PubType(t) == IF t = "" THEN "string" ELSE t
+Published(rpc) == {[lname |-> h.lname, required |-> h.required, type |-> PubType(h.type), format |-> h.format] : h \in Effective(rpc)}
+\* The last sentence of C09 speaks about requests that satisfy the PUBLISHED list; it carries over from
+\* the declarations to a real document ps exactly when the document says, of every header the servers
+\* insist on, that it is required and what its type and format are.
+PublishedCovers(rpc, ps) == \A p \in Published(rpc) : p.required => p \in ps
+
 HdrCls(r, lname) ==
   IF \E v \in Range(r.hdrVals) : v.lname = lname
   THEN (CHOOSE v \in Range(r.hdrVals) : v.lname = lname).cls
